@@ -167,7 +167,7 @@ def genResult : HFin Resp → CResult Resp
 theorem call_unaryUnary (h : Handler Req Resp) (hg : h.isGen = false) (r : Req) :
     call .unaryUnary h [r] =
       ⟨1, [some r], true, [], coroResult (hFeed false (h.body (some r)) []).fin⟩ := by
-  simp only [call, callWith, helperProg, unaryUnary, canon, mRunC, init, rpcShape, csOf, ssOf, serverProg]
+  simp only [call, callWith, callProg, initV, helperProg, unaryUnary, canon, mRunC, init, rpcShape, csOf, ssOf, serverProg]
   simp [mRun, sendOp, upPush, csOf, downRecv, sRun, sRunL, vRunG, vRun, afterRecv, callUnaryResp, hg, callArg,
     vRun_coroProg, hFeed_false]
   cases hf : (hFeed false (h.body (some r)) []).fin with
@@ -180,7 +180,7 @@ theorem call_unaryStream (h : Handler Req Resp) (hg : h.isGen = true) (r : Req) 
     call .unaryStream h [r] =
       ⟨1, [some r], true, (hFeed false (h.body (some r)) []).yields,
         genResult (hFeed false (h.body (some r)) []).fin⟩ := by
-  simp only [call, callWith, helperProg, unaryStream, canon, mRunC, init, rpcShape, csOf, ssOf, serverProg]
+  simp only [call, callWith, callProg, initV, helperProg, unaryStream, canon, mRunC, init, rpcShape, csOf, ssOf, serverProg]
   simp [mRun, sendOp, upPush, csOf, downRecv, sRun, sRunL, vRunG, vRun, afterRecv, callServerStream, hg, callArg,
     vRun_genProg, hFeed_false]
   cases hf : (hFeed false (h.body (some r)) []).fin with
@@ -193,7 +193,7 @@ theorem call_unaryStream (h : Handler Req Resp) (hg : h.isGen = true) (r : Req) 
 theorem call_streamUnary (h : Handler Req Resp) (hg : h.isGen = false) (reqs : List Req) :
     call .streamUnary h reqs =
       ⟨1, (hFeed true (h.body none) reqs).given, true, [], coroResult (hFeed true (h.body none) reqs).fin⟩ := by
-  simp only [call, callWith, helperProg, streamUnary, canon, mRunC, init, rpcShape, csOf, ssOf, serverProg,
+  simp only [call, callWith, callProg, initV, helperProg, streamUnary, canon, mRunC, init, rpcShape, csOf, ssOf, serverProg,
     sendMessages_map]
   simp [mRun, sendRequest, mRun_messages (Resp := Resp) true .streamUnary rfl, sendOp_end_cs .streamUnary rfl,
     downRecv, sRun, sRunL, vRunG, afterRecv, callUnaryResp, hg, callArg, vRun, vRun_coroProg]
@@ -207,7 +207,7 @@ theorem call_streamStream (h : Handler Req Resp) (hg : h.isGen = true) (reqs : L
     call .streamStream h reqs =
       ⟨1, (hFeed true (h.body none) reqs).given, true, (hFeed true (h.body none) reqs).yields,
         genResult (hFeed true (h.body none) reqs).fin⟩ := by
-  simp only [call, callWith, helperProg, streamStream, canon, mRunC, init, rpcShape, csOf, ssOf, serverProg]
+  simp only [call, callWith, callProg, initV, helperProg, streamStream, canon, mRunC, init, rpcShape, csOf, ssOf, serverProg]
   simp [mRun, sendRequest, downRecv, sRun, sRunL_sendMessages .streamStream rfl, vRunG, afterRecv, callServerStream,
     hg, callArg, vRun, vRun_genProg]
   cases hf : (hFeed true (h.body none) reqs).fin with
